@@ -201,6 +201,8 @@ struct G {
     w: World, gw: VMAddress, owner: VMAddress, operator: VMAddress, users: Vec<VMAddress>,
     pool: Pool, tab: SigTab, sets: Vec<SSet>, retention: u64, domain: Vec<u8>, min_delay: u64, last_rot: u64,
     sent: Vec<Msg>,
+    first: Vec<(Vec<u8>, Vec<u8>, Vec<u8>, Vec<u8>, Vec<u8>)>,        // the first message approved under each id (the one the gateway holds)
+    validated: Vec<(Vec<u8>, Vec<u8>, Vec<u8>, Vec<u8>, Vec<u8>)>,     // messages whose validation succeeded: validated again later (every such call answers false)
 }
 
 fn small_name(r: &mut Rng, pool: &[&str]) -> Vec<u8> { r.pick(pool).as_bytes().to_vec() }
@@ -265,7 +267,7 @@ pub fn run(seed: u64, ntraces: usize) {
         let init = json!({"owner": hx(owner.as_bytes()), "now": t0, "retention": retention, "domain": hx(&domain), "min_delay": min_delay,
             "operator": hx(&op_arg), "signers": sets.iter().map(|s| hx(&s.encode(0))).collect::<Vec<_>>(), "res": st.json});
         let mut g = G { w, gw: gw.clone(), owner: owner.clone(), operator: operator.clone(), users: users.clone(), pool: Pool::new(), tab: SigTab(vec![]),
-            sets, retention, domain, min_delay, last_rot: t0, sent: vec![] };
+            sets, retention, domain, min_delay, last_rot: t0, sent: vec![], first: vec![], validated: vec![] };
         let mut steps: Vec<Value> = vec![];
         let nops = if st.res.result_status != 0 { 0 } else { 6 + r.below(10) as usize };      // a refused deployment leaves no contract to call
         // directed rotation battery (t % 8 == 5): (caller index in [owner, operator, user0, user1], set: 0 latest / 1 previous, early?)
@@ -277,13 +279,16 @@ pub fn run(seed: u64, ntraces: usize) {
             for k in 0..8u64 { v.push((1, 0, true, Some(k))); }
             v } else { vec![] };
         let nops = nops + rot_script.len();
+        // follow-ups of a successful validation: the same call again, by a stranger, and with another payload hash -- an executed message never validates again
+        let mut vq: Vec<((Vec<u8>, Vec<u8>, Vec<u8>, Vec<u8>, Vec<u8>), u64)> = vec![];
         for _ in 0..nops {
             let forced_rot = if rot_script.is_empty() { None } else { Some(rot_script.remove(0)) };
             // time advance around the rotation delay
             let dt = if let Some((_, _, early, _)) = forced_rot { if early { g.min_delay / 2 } else { g.min_delay + 1 } } else { match r.below(6) { 0 => 0, 1 => g.min_delay.saturating_sub(1), 2 => g.min_delay, 3 => g.min_delay + 1, _ => r.below(2 * g.min_delay + 5) } };
             let now = (g.last_rot + dt).max(t0); t0 = now; g.w.set_time(now);
             let callers = [g.owner.clone(), g.operator.clone(), g.users[0].clone(), g.users[1].clone()];
-            let choice = if forced_rot.is_some() { 8 } else { r.below(20) };
+            let forced_val = if forced_rot.is_none() && !vq.is_empty() { Some(vq.remove(0)) } else { None };
+            let choice = if forced_rot.is_some() { 8 } else if forced_val.is_some() { 15 } else { r.below(20) };
             let (opj, step) = if choice < 8 {
                 // approveMessages
                 let nm = match r.below(6) { 0 => 0, 1 | 2 => 1, _ => 1 + r.below(4) as usize };
@@ -302,7 +307,7 @@ pub fn run(seed: u64, ntraces: usize) {
                 let p = build_proof(&mut r, pool, tab, &set, domain, 0, &raw, variant);
                 let caller = r.pick(&callers).clone();
                 let st = g.w.call0(&caller, &g.gw, "approveMessages", vec![raw.clone(), p.bytes.clone()]);
-                if st.res.result_status == 0 { for m in msgs { g.sent.push(m); } }
+                if st.res.result_status == 0 { for m in msgs { if !g.sent.iter().any(|x| x.chain == m.chain && x.id == m.id) { g.first.push((m.chain.clone(), m.id.clone(), m.src.clone(), m.contract.clone(), m.ph.clone())); } g.sent.push(m); } }
                 (op_json("approve", format!("{}/{}/{}/n={}", mlabel, slabel, p.label, nm), &caller, now, json!({"messages": hx(&raw), "proof": hx(&p.bytes)})), st)
             } else if choice < 12 {
                 // rotateSigners
@@ -322,10 +327,11 @@ pub fn run(seed: u64, ntraces: usize) {
                     json!({"signers": hx(&raw), "proof": hx(&p.bytes)})), st)
             } else if choice < 16 {
                 // validateMessage by right / wrong caller with right / wrong fields
-                let (chain, id, src, contract, ph) = if !g.sent.is_empty() && r.chance(5, 6) {
+                let (chain, id, src, contract, ph) = if let Some((m, _)) = &forced_val { m.clone() } else if !g.validated.is_empty() && r.chance(1, 3) { r.pick(&g.validated).clone() } else if !g.first.is_empty() && r.chance(1, 2) { r.pick(&g.first).clone() } else if !g.sent.is_empty() && r.chance(5, 6) {
                     let m = &g.sent[r.below(g.sent.len() as u64) as usize]; (m.chain.clone(), m.id.clone(), m.src.clone(), m.contract.clone(), m.ph.clone())
                 } else { (b"ethereum".to_vec(), b"id-0".to_vec(), b"0xabc".to_vec(), g.users[0].to_vec(), keccak(&[0])) };
-                let (label, caller, src2, ph2) = match r.below(10) {
+                let orig = (chain.clone(), id.clone(), src.clone(), contract.clone(), ph.clone());
+                let (label, caller, src2, ph2) = match if let Some((_, k)) = &forced_val { *k } else { r.below(10) } {
                     8 | 9 => { let s: Vec<u8> = src.iter().map(|b| if b.is_ascii_alphabetic() { b ^ 0x20 } else { *b }).collect();      // same letters, other case: a different source address
                                ("source_other_case", VMAddress::new(contract.clone().try_into().unwrap()), s, ph) }
                     0 => ("wrong_caller", g.users[(r.below(3)) as usize].clone(), src, ph),
@@ -335,6 +341,7 @@ pub fn run(seed: u64, ntraces: usize) {
                     _ => ("right", VMAddress::new(contract.clone().try_into().unwrap()), src, ph),
                 };
                 let st = g.w.call0(&caller, &g.gw, "validateMessage", vec![chain.clone(), id.clone(), src2.clone(), ph2.clone()]);
+                if st.res.result_status == 0 && st.res.result_values.first().map(|v| !v.is_empty()).unwrap_or(false) { if forced_val.is_none() { for k in [4u64, 0, 2] { vq.push((orig.clone(), k)); } } g.validated.push(orig); }
                 (op_json("validate", label.to_string(), &caller, now, json!({"chain": hx(&chain), "id": hx(&id), "src": hx(&src2), "ph": hx(&ph2)})), st)
             } else if choice < 17 {
                 let caller = r.pick(&callers).clone();
